@@ -3,21 +3,31 @@
 For every storage of a `RealWorld` it keeps the specification state "list of appended
 (time, data) pairs of the surviving sessions" under the *documented* write-mode semantics and
 checks after every operation, through the public API (`times`, `data`, `storage[i]`, `items()`,
-`extract_*`, `view_field`, `copy`, `apply`), that the real storage shows exactly that."""
+`extract_*`, `view_field`, `copy`, `apply`), that the real storage shows exactly that.
+
+Acceptance is judged by the monitor itself: `before(op)` records the public state of the addressed
+storages (`write_mode`, `shape`, `dtype`, grid, template), `after(op, err, obs)` derives from it
+whether the operation is VALID (then it must succeed: symptoms `*-rejected`) or must be refused
+(`readonly-*-accepted`, `ragged-append`, `dtype-rule`, `extract-field-id`, ...); the specification
+log only follows operations that really were accepted.  Data are compared exactly (NaN-safe) in the
+dtype they were appended with."""
 import bisect
 
 import numpy as np
 
-from harness.common.c20_world import flat
+from harness.common.c20_world import flat, same_vals
+
+WRITABLE = ("truncate", "truncate_once", "append")
 
 
 class Cell:
     """content of one stored frame according to the specification: a snapshot taken when the
-    frame was appended, or (storages built by `from_fields`) the live field it aliases"""
-    __slots__ = ("vals", "field", "shape")
+    frame was appended, or (storages built by `from_fields`) the live field it aliases;
+    `dtype` = dtype string the stored frame must have (None: not determined by the specification)"""
+    __slots__ = ("vals", "field", "shape", "dtype")
 
-    def __init__(self, vals=None, field=None, shape=None):
-        self.vals, self.field, self.shape = vals, field, shape
+    def __init__(self, vals=None, field=None, shape=None, dtype=None):
+        self.vals, self.field, self.shape, self.dtype = vals, field, shape, dtype
 
     def get(self):
         return self.vals if self.field is None else flat(self.field.data)
@@ -31,6 +41,9 @@ class SpecStore:
 
     def times(self):
         return [t for t, _ in self.log]
+
+    def truncates(self):
+        return self.mode == "truncate" or (self.mode == "truncate_once" and self.fresh)
 
 
 def member_layout(coll):
@@ -72,32 +85,106 @@ def apply_vals(func, t, vals, coll_layout):
     raise ValueError(k)
 
 
+def is_collection(f):
+    return f is not None and hasattr(f, "fields")
+
+
+def public_state(st):
+    """what a storage says about itself (no side effects: `storage.grid` may load a grid from `info`)"""
+    try:
+        dt = np.dtype(st.dtype)
+    except RuntimeError:
+        dt = None
+    shp = st.shape
+    return {"mode": st.write_mode, "shape": None if shp is None else tuple(shp[1:]), "grid": st._grid,
+            "dtype": dt, "n": len(st), "template": st._field}
+
+
+def cast_class(src, pre):
+    """how data of dtype `src` relates to the dtype the storage will read it back with:
+    'safe' (every value survives), 'same_kind' (numpy casts but may lose precision), 'no';
+    the dtype of the storage if it is set, else the dtype of the template, else 'safe'"""
+    dst = pre["dtype"]
+    if dst is None and pre["template"] is not None:
+        dst = np.dtype(pre["template"].dtype)
+    if dst is None or np.can_cast(src, dst, casting="safe"):
+        return "safe"
+    if np.can_cast(src, dst, casting="same_kind"):
+        return "same_kind"
+    return "no"
+
+
+def probe(world):
+    """touch the public state of every storage the way generator and monitor do; raises if a storage
+    is left in a state that cannot even be inspected"""
+    for st in world.stores:
+        n = len(st)
+        ts = [float(t) for t in st.times]
+        sizes = [int(d.size) for d in st.data]
+        if len(ts) != n or len(sizes) != n:
+            raise RuntimeError(f"len(storage)={n}, {len(ts)} times, {len(sizes)} frames")
+        public_state(st)
+        if st._field is not None:
+            for k in range(n):
+                st[k]
+
+
 class Monitor:
     def __init__(self, world):
         self.w = world
         self.specs = []
         self.evals = 0
         self.observations = []
+        self.pre = self.pre_out = None
+        self.branches = []          # sub-branches taken (for the input-distribution histograms)
 
     # failures are dicts {what, observed, expected, key}
     @staticmethod
-    def _fail(what, observed, expected, symptom, call_site="MemoryStorage"):
+    def _fail(what, observed, expected, symptom, call_site="MemoryStorage", **extra):
         return {"what": what, "observed": observed, "expected": expected,
-                "key": {"call_site": call_site, "symptom": symptom}}
+                "key": {"call_site": call_site, "symptom": symptom, **extra}}
+
+    def _data_fail(self, what, observed, expected, symptom, st, k):
+        """a read that differs from the appended data; diagnosed as the dtype narrowing of `_get_field`
+        when the stored frame itself is right but its dtype cannot be cast safely to the template's"""
+        try:
+            tmpl = st._field
+            ks = [k] if k is not None else range(len(st.data))
+            fr = next((st.data[x] for x in ks if tmpl is not None and
+                       not np.can_cast(st.data[x].dtype, tmpl.dtype, casting="safe")), None)
+            if fr is not None:
+                # how the frame got there: appended to a storage without dtype (`from_fields`, `extract_*` results),
+                # appended before a later `start_writing` replaced the template by one of another dtype, or
+                # accepted by the same_kind rule of `append`
+                route = ("dtype-unset-append" if st._dtype is None else
+                         "template-dtype-changed" if np.can_cast(fr.dtype, st._dtype, casting="safe") else
+                         "same-kind-append")
+                return self._fail(
+                    "a read differs from the appended data: the frame is stored exactly, but `_get_field` narrows it to "
+                    f"the dtype of the template ({route})",
+                    {**observed, "check": what, "frame_dtype": str(fr.dtype), "template_dtype": str(np.dtype(tmpl.dtype))},
+                    expected, "read-narrows-frame-to-template-dtype", "StorageBase._get_field", route=route)
+        except Exception:  # noqa: BLE001 - the diagnosis must not hide the failure
+            pass
+        return self._fail(what, observed, expected, symptom)
 
     def check_contents(self, touched=None):
         """every storage shows exactly its specification log"""
         for sid, (st, sp) in enumerate(zip(self.w.stores, self.specs)):
             exp_t = sp.times()
-            if [float(t) for t in st.times] != [float(t) for t in exp_t] or len(st.data) != len(sp.log):
+            if not same_vals([float(t) for t in st.times], [float(t) for t in exp_t]) or len(st.data) != len(sp.log):
                 return self._fail("stored times differ from the appended times of the surviving sessions",
                                   {"storage": sid, "times": list(st.times), "n_frames": len(st.data)},
                                   {"times": exp_t}, "times")
             for k, (_t, cell) in enumerate(sp.log):
-                if flat(st.data[k]) != tuple(cell.get()):
+                if not same_vals(flat(st.data[k]), cell.get()):
                     return self._fail("stored frame differs from the data of the field when it was appended",
                                       {"storage": sid, "frame": k, "data": flat(st.data[k])},
                                       {"data": tuple(cell.get())}, "frame-data")
+                if cell.dtype is not None and st.data[k].dtype.str != cell.dtype:
+                    return self._fail("stored frame has another dtype than the data that was appended",
+                                      {"storage": sid, "frame": k, "dtype": st.data[k].dtype.str},
+                                      {"dtype": cell.dtype}, "frame-dtype")
             if sid == touched and sp.log and st._field is not None:
                 for k, (t, cell) in enumerate(sp.log):
                     try:
@@ -106,11 +193,18 @@ class Monitor:
                         return self._fail("storage[i] raised for a stored frame",
                                           {"storage": sid, "frame": k, "error": f"{type(e).__name__}: {e}"},
                                           {"data": tuple(cell.get())}, "read-raised")
-                    if flat(f.data) != tuple(cell.get()):
-                        return self._fail("storage[i] differs from the data of the field when it was appended",
-                                          {"storage": sid, "frame": k, "data": flat(f.data)},
-                                          {"data": tuple(cell.get())}, "read-data")
+                    if not same_vals(flat(f.data), cell.get()):
+                        return self._data_fail("storage[i] differs from the data of the field when it was appended",
+                                               {"storage": sid, "frame": k, "data": flat(f.data)},
+                                               {"data": tuple(cell.get())}, "read-data", st, k)
         return None
+
+    def before(self, op):
+        """record the public state the acceptance of `op` is judged on"""
+        S = self.w.stores
+        sid, out = op.get("sid"), op.get("out")
+        self.pre = public_state(S[sid]) if isinstance(sid, int) and sid < len(S) else None
+        self.pre_out = public_state(S[out]) if isinstance(out, int) and out < len(S) else None
 
     def after(self, op, err, obs):
         """update the specification with the outcome of `op` and check the real world;
@@ -125,9 +219,15 @@ class Monitor:
         if k == "newStore":
             S.append(SpecStore(op["mode"]))
         elif k == "fromFields":
+            fs = [w.fields[i] for i in op["fids"]]
+            valid = (len(fs) > 0 and len(op["times"]) == len(fs) and all(f.grid == fs[0].grid for f in fs)
+                     and all(f.data.shape == fs[0].data.shape for f in fs))
+            if valid and err is not None:
+                return self._fail("from_fields refused times and fields of equal length on one grid", {"error": err},
+                                  {"error": None}, "from-fields-rejected", "MemoryStorage.from_fields")
             if err is None:
                 sp = SpecStore(op["mode"])
-                sp.log = [(t, Cell(field=w.fields[i], shape=w.fields[i].data.shape))
+                sp.log = [(t, Cell(field=w.fields[i], shape=w.fields[i].data.shape, dtype=w.fields[i].data.dtype.str))
                           for t, i in zip(op["times"], op["fids"])]
                 S.append(sp)
         elif k == "fromCollection":
@@ -152,6 +252,83 @@ class Monitor:
             return bad
         return self.check_contents(touched)
 
+    # ------------------------------------------------------------------------------------------
+    def _start(self, op, err, sp, st):
+        f = self.w.fields[op["fid"]]
+        pre = self.pre
+        if sp.mode == "readonly" and err != "RuntimeError":
+            return self._fail("start_writing on a readonly storage did not raise RuntimeError",
+                              {"error": err}, {"error": "RuntimeError"}, "readonly-start-accepted",
+                              "MemoryStorage.start_writing")
+        shape_ok = pre["shape"] is None or pre["shape"] == tuple(f.data.shape)
+        valid = pre["mode"] in WRITABLE and shape_ok
+        self.branches.append("start:" + ("valid" if valid else "readonly" if pre["mode"] == "readonly" else
+                                         "unknown-mode" if pre["mode"] not in WRITABLE else "wrong-shape"))
+        if valid and err is not None:
+            return self._fail(f"start_writing was refused in mode '{pre['mode']}' although the data shape is "
+                              "unknown or equal to the field's", {"error": err, "mode": pre["mode"]},
+                              {"error": None}, "start-rejected", "MemoryStorage.start_writing")
+        if err is None:
+            if pre["mode"] not in WRITABLE:
+                return self._fail(f"start_writing was accepted in the undocumented write mode '{pre['mode']}'",
+                                  {"error": None}, {"error": "an exception"}, "unknown-mode-start-accepted",
+                                  "MemoryStorage.start_writing")
+            if sp.truncates():
+                sp.log = []
+            sp.fresh = False
+            now = public_state(st)
+            want_dt = pre["dtype"] if pre["dtype"] is not None else np.dtype(f.dtype)
+            if now["shape"] != tuple(f.data.shape) or now["grid"] != f.grid or now["dtype"] != want_dt or \
+                    now["template"] is None or type(now["template"]) is not type(f):
+                return self._fail("after start_writing(field) the storage is not prepared for the field "
+                                  "(data shape, grid, dtype, template)",
+                                  {"shape": now["shape"], "dtype": str(now["dtype"]),
+                                   "template": type(now["template"]).__name__},
+                                  {"shape": tuple(f.data.shape), "dtype": str(want_dt), "template": type(f).__name__},
+                                  "start-postcondition", "MemoryStorage.start_writing")
+        return None
+
+    def _append(self, op, err, sp, st):
+        f = self.w.fields[op["fid"]]
+        pre, n = self.pre, len(sp.log)
+        shape_ok = pre["shape"] is not None and pre["shape"] == tuple(f.data.shape)
+        grid_ok = pre["grid"] is None or pre["grid"] == f.grid
+        cc = cast_class(f.dtype, pre)
+        others_ok = pre["mode"] in WRITABLE and shape_ok and grid_ok
+        valid = others_ok and cc == "safe"
+        self.branches.append("append:" + ("valid" if valid else "readonly" if pre["mode"] == "readonly" else
+                                          "no-shape" if pre["shape"] is None else "wrong-shape" if not shape_ok else
+                                          "wrong-grid" if not grid_ok else "unknown-mode" if not others_ok else
+                                          "cast-" + cc))
+        if valid and err is not None:
+            return self._fail("append of a field with the grid, data shape and a safely castable dtype of the "
+                              f"storage was refused in mode '{pre['mode']}'", {"error": err}, {"error": None},
+                              "append-rejected", "StorageBase.append")
+        if others_ok and cc == "no" and pre["dtype"] is not None and err != "TypeError":
+            return self._fail(f"append of {np.dtype(f.dtype)} data to a {pre['dtype']} storage did not raise TypeError",
+                              {"error": err}, {"error": "TypeError"}, "dtype-rule", "StorageBase.append")
+        if err is None:
+            t = op["t"]
+            if t is None:
+                t = 0 if n == 0 else sp.log[-1][0] + 1
+            ragged = n > 0 and sp.log[0][1].shape is not None and sp.log[0][1].shape != f.data.shape
+            sp.log.append((t, Cell(vals=flat(f.data), shape=f.data.shape, dtype=f.data.dtype.str)))
+            if sp.mode == "readonly":
+                return self._fail("append on a readonly storage was accepted (documented: 'readonly' "
+                                  "disables writing completely)", {"error": None, "times": list(st.times)},
+                                  {"error": "an exception"}, "readonly-append-accepted", "StorageBase.append")
+            if ragged:
+                return self._fail("append accepted a field whose data shape differs from the stored frames",
+                                  {"shape": list(f.data.shape)}, {"error": "ValueError"}, "ragged-append")
+        return None
+
+    def _template_member(self, field_id):
+        """(is the storage a collection storage, index of the selected member or None)"""
+        tmpl = self.pre["template"]
+        if not is_collection(tmpl):
+            return False, None
+        return True, pick_member(member_layout(tmpl), field_id)
+
     def _after_store_op(self, op, err, obs, sp, st):
         w, S = self.w, self.specs
         k = op["op"]
@@ -159,32 +336,15 @@ class Monitor:
         if k == "setMode":
             sp.mode, sp.fresh = op["mode"], True
         elif k == "start":
-            if sp.mode == "readonly" and err != "RuntimeError":
-                return self._fail("start_writing on a readonly storage did not raise RuntimeError",
-                                  {"error": err}, {"error": "RuntimeError"}, "readonly-start-accepted",
-                                  "MemoryStorage.start_writing")
-            if err is None:
-                if sp.mode == "truncate" or (sp.mode == "truncate_once" and sp.fresh):
-                    sp.log = []
-                sp.fresh = False
+            return self._start(op, err, sp, st)
         elif k == "append":
-            f = w.fields[op["fid"]]
-            if err is None:
-                t = op["t"]
-                if t is None:
-                    t = 0 if n == 0 else sp.log[-1][0] + 1
-                ragged = n > 0 and sp.log[0][1].shape is not None and sp.log[0][1].shape != f.data.shape
-                sp.log.append((t, Cell(vals=flat(f.data), shape=f.data.shape)))
-                if sp.mode == "readonly":
-                    return self._fail("append on a readonly storage was accepted (documented: 'readonly' "
-                                      "disables writing completely)", {"error": None, "times": list(st.times)},
-                                      {"error": "an exception"}, "readonly-append-accepted", "StorageBase.append")
-                if ragged:
-                    return self._fail("append accepted a field whose data shape differs from the stored frames",
-                                      {"shape": list(f.data.shape)}, {"error": "ValueError"}, "ragged-append")
+            return self._append(op, err, sp, st)
         elif k == "clear":
             if err is None:
                 sp.log = []
+                if op.get("shape") and st.shape is not None:
+                    return self._fail("clear(clear_data_shape=True) kept the data shape", {"shape": list(st.shape)},
+                                      {"shape": None}, "clear-keeps-shape")
             else:
                 return self._fail("clear raised", {"error": err}, {"error": None}, "clear-raised")
         elif k == "end":
@@ -193,6 +353,7 @@ class Monitor:
         elif k == "read":
             i = op["i"]
             j = i + n if i < 0 else i
+            self.branches.append("read:" + ("in-range" if 0 <= j < n else "out-of-range") + ("-negative" if i < 0 else ""))
             if not 0 <= j < n:
                 if err != "IndexError":
                     return self._fail("out-of-range read did not raise IndexError", {"error": err},
@@ -200,9 +361,10 @@ class Monitor:
             else:
                 if err is not None:
                     return self._fail("in-range read raised", {"error": err, "i": i}, {"error": None}, "read-raised")
-                if tuple(obs["field"]["vals"]) != tuple(sp.log[j][1].get()):
-                    return self._fail("storage[i] differs from the appended data", {"i": i, "data": obs["field"]["vals"]},
-                                      {"data": sp.log[j][1].get()}, "read-data")
+                if not same_vals(obs["field"]["vals"], sp.log[j][1].get()):
+                    return self._data_fail("storage[i] differs from the appended data",
+                                           {"i": i, "data": obs["field"]["vals"]},
+                                           {"data": sp.log[j][1].get()}, "read-data", st, j)
                 if np.shares_memory(w.fields[-1].data, st.data[j]):
                     return self._fail("field read back shares memory with the stored frame", {"i": i},
                                       {"shares_memory": False}, "read-aliases-frame")
@@ -210,108 +372,199 @@ class Monitor:
             if k == "items":
                 exp = [(float(t), tuple(c.get())) for t, c in sp.log]
                 got = None if err else [(it["t"], tuple(it["vals"])) for it in obs["items"]]
+                same = got is not None and len(got) == len(exp) and all(
+                    same_vals([a[0]], [b[0]]) and same_vals(a[1], b[1]) for a, b in zip(got, exp))
             else:
-                exp = [tuple(c.get()) for _t, c in sp.log[op["a"]:op["b"]]]
+                exp = [tuple(c.get()) for _t, c in sp.log[op["a"]:op["b"]:op.get("step")]]
                 got = None if err else [tuple(it["vals"]) for it in obs["fields"]]
-            if err is not None or got != exp:
-                return self._fail(f"{k} does not return the appended pairs in order", {"error": err, "got": got},
-                                  {"expected": exp}, f"{k}-data")
+                same = got is not None and len(got) == len(exp) and all(same_vals(a, b) for a, b in zip(got, exp))
+                self.branches.append("slice:" + ("stepped" if op.get("step") is not None else "plain") +
+                                     ("-empty" if not exp else ""))
+            if not same:
+                return self._data_fail(f"{k} does not return the appended pairs in order", {"error": err, "got": got},
+                                       {"expected": exp}, f"{k}-data", st, None)
         elif k == "extractTimeRange":
-            ts = sp.times()
-            a, b = (None, None) if op["kind"] == "all" else ((None, op["b"]) if op["kind"] == "upto" else (op["a"], op["b"]))
-            if (a is None or b is None) and not ts:
-                if err != "IndexError":
-                    return self._fail("extract_time_range with an open end on an empty storage", {"error": err},
-                                      {"error": "IndexError"}, "etr-empty")
-                return None
-            if err is not None:
-                return self._fail("extract_time_range raised", {"error": err}, {"error": None}, "etr-raised")
-            a = ts[0] if a is None else a
-            b = ts[-1] if b is None else b
-            r = w.stores[-1]
-            if all(x <= y for x, y in zip(ts, ts[1:])):
-                # sorted times: exactly the pairs with a <= t <= b, in order
-                i, j = bisect.bisect_left(ts, a), bisect.bisect_right(ts, b)
-                part = sp.log[i:j]
-                filt = [e for e in sp.log if a <= e[0] <= b]
-                if [id(e[1]) for e in filt] != [id(e[1]) for e in part]:
-                    return self._fail("bisect reference differs from the interval filter on sorted times",
-                                      {"slice": [i, j]}, {}, "etr-reference")
-            else:
-                # unsorted times: the bracket found by a binary search is unspecified, but the result
-                # must be a contiguous run of the stored pairs
-                m = len(r.times)
-                i = next((i for i in range(n - m + 1)
-                          if [float(t) for t in ts[i:i + m]] == [float(t) for t in r.times]
-                          and all(flat(r.data[x]) == tuple(sp.log[i + x][1].get()) for x in range(m))
-                          and all(np.shares_memory(r.data[x], st.data[i + x]) for x in range(m))), None)
-                if i is None:
-                    i = next((i for i in range(n - m + 1)
-                              if [float(t) for t in ts[i:i + m]] == [float(t) for t in r.times]
-                              and all(flat(r.data[x]) == tuple(sp.log[i + x][1].get()) for x in range(m))), None)
-                if i is None:
-                    return self._fail("extract_time_range result is not a contiguous run of the stored pairs",
-                                      {"times": list(r.times)}, {"stored_times": ts}, "etr-not-a-run")
-                part = sp.log[i:i + m]
-            new = SpecStore("truncate_once")
-            for kk, (t, c) in enumerate(part):
-                shared = kk < len(r.data) and i + kk < len(st.data) and np.shares_memory(r.data[kk], st.data[i + kk])
-                new.log.append((t, c if shared else Cell(vals=tuple(c.get()), shape=c.shape)))
-            S.append(new)
+            return self._extract_time_range(op, err, sp, st)
         elif k == "extractField":
+            coll, m = self._template_member(op["field"])
+            self.branches.append("extractField:" + ("no-collection" if not coll else "bad-id" if m is None else
+                                                    "label" if isinstance(op["field"], str) else
+                                                    "negative" if op["field"] < 0 else "index"))
+            if coll and m is not None and err is not None:
+                return self._fail("extract_field refused a field id that selects a member of the stored collection",
+                                  {"error": err, "field": op["field"]}, {"error": None}, "extract-field-rejected",
+                                  "StorageBase.extract_field")
             if err is None:
+                if m is None:
+                    return self._fail("extract_field accepted a field id that selects no member",
+                                      {"field": op["field"]}, {"error": "an exception"}, "extract-field-id")
                 r = w.stores[-1]
+                lay = member_layout(self.pre["template"])
                 new = SpecStore("truncate_once")
                 for kk, (t, c) in enumerate(sp.log):
-                    lay = member_layout(st[kk])
-                    m = pick_member(lay, op["field"])
-                    if m is None:
-                        return self._fail("extract_field accepted a field id that selects no member",
-                                          {"field": op["field"]}, {"error": "an exception"}, "extract-field-id")
                     vals = tuple(c.get())[lay[m][1]:lay[m][2]]
-                    new.log.append((t, Cell(vals=vals)))
+                    new.log.append((t, Cell(vals=vals, dtype=c.dtype)))
                     if kk < len(r.data) and np.shares_memory(r.data[kk], st.data[kk]):
                         return self._fail("extract_field result shares memory with the source (documented: copy)",
                                           {"frame": kk}, {"shares_memory": False}, "extract-field-aliases")
                 S.append(new)
+                want = op.get("label") or self.pre["template"][m].label
+                if r._field is None or r._field.label != want or type(r._field) is not type(self.pre["template"][m]):
+                    return self._fail("extract_field result has another template than the selected member",
+                                      {"label": getattr(r._field, "label", None), "class": type(r._field).__name__},
+                                      {"label": want, "class": type(self.pre["template"][m]).__name__},
+                                      "extract-field-template")
         elif k in ("viewRead", "viewItems"):
+            coll, m = self._template_member(op["field"])
+            inrange = True
+            if k == "viewRead":
+                jj = op["k"] + n if op["k"] < 0 else op["k"]
+                inrange = 0 <= jj < n
+            self.branches.append(k + ":" + ("no-collection" if not coll else "bad-id" if m is None else
+                                            "out-of-range" if not inrange else
+                                            "label" if isinstance(op["field"], str) else
+                                            "negative" if op["field"] < 0 else "index"))
+            if coll and m is not None and inrange and err is not None:
+                return self._fail("view_field refused a field id that selects a member of the stored collection",
+                                  {"error": err, "field": op["field"]}, {"error": None}, "view-rejected",
+                                  "StorageBase.view_field")
             if err is None:
+                if m is None and (k == "viewRead" or n > 0):
+                    return self._fail("view_field returned data for a field id that selects no member",
+                                      {"field": op["field"]}, {"error": "an exception"}, "view-field-id")
                 its = [(op["k"], obs["field"]["vals"])] if k == "viewRead" else list(enumerate(it["vals"] for it in obs["items"]))
-                if k == "viewItems" and ([it["t"] for it in obs["items"]] != [float(t) for t in sp.times()]):
-                    return self._fail("view items have other times", {}, {}, "view-times")
-                for kk, vals in its:
+                if k == "viewItems" and (len(its) != n or not same_vals([it["t"] for it in obs["items"]],
+                                                                        [float(t) for t in sp.times()])):
+                    return self._fail("view items have other times", {"times": [it["t"] for it in obs["items"]]},
+                                      {"times": sp.times()}, "view-times")
+                lay = member_layout(self.pre["template"])
+                for kk, vals in its if m is not None else []:
                     jj = kk + n if kk < 0 else kk
-                    lay = member_layout(st[jj])
-                    m = pick_member(lay, op["field"])
-                    exp = None if m is None else tuple(sp.log[jj][1].get())[lay[m][1]:lay[m][2]]
-                    if exp is None or tuple(vals) != exp:
-                        return self._fail("view_field differs from the member's part of the stored frame",
-                                          {"k": kk, "data": vals}, {"data": exp}, "view-data")
+                    exp = tuple(sp.log[jj][1].get())[lay[m][1]:lay[m][2]]
+                    if not same_vals(vals, exp):
+                        return self._data_fail("view_field differs from the member's part of the stored frame",
+                                               {"k": kk, "data": vals}, {"data": exp}, "view-data", st, jj)
+                if k == "viewRead" and np.shares_memory(w.fields[-1].data, st.data[jj]):
+                    # (the docstring of view_field promises a view; the property demands that fields read back
+                    # do not alias stored frames - the code returns copies)
+                    return self._fail("field read through view_field shares memory with the stored frame",
+                                      {"k": op["k"]}, {"shares_memory": False}, "view-aliases-frame")
         elif k == "apply":
-            src = [(t, tuple(c.get())) for t, c in sp.log]
-            out = op.get("out")
-            tgt = None if out is None else S[out]
-            if src and tgt is not None and tgt.mode == "readonly" and err != "RuntimeError":
-                return self._fail("copy/apply into a readonly storage did not raise RuntimeError", {"error": err},
-                                  {"error": "RuntimeError"}, "readonly-start-accepted", "StorageBase.apply")
-            if err is None:
-                lay = None
-                if src:
-                    f0 = st[0]
-                    if hasattr(f0, "fields"):
-                        lay = member_layout(f0)
-                newlog = [(t, Cell(vals=apply_vals(op["func"], t, v, lay))) for t, v in src]
-                if tgt is None:
-                    tgt = SpecStore("truncate_once")
-                    S.append(tgt)
-                if src:
-                    if tgt.mode == "truncate" or (tgt.mode == "truncate_once" and tgt.fresh):
-                        tgt.log = []
-                    tgt.fresh = False
-                    tgt.log = tgt.log + newlog
+            return self._apply(op, err, sp, st)
         elif k == "poke":
             if err is None:
                 c = sp.log[op["i"]][1]
                 if c.field is None:
-                    c.vals = tuple(float(x) for x in op["vals"])
+                    # a direct write of the user to `storage.data[i]`: numpy stores the values in the frame's dtype
+                    with np.errstate(all="ignore"):
+                        c.vals = flat(np.array(op["vals"], dtype=float).astype(st.data[op["i"]].dtype))
+        return None
+
+    def _extract_time_range(self, op, err, sp, st):
+        w, S = self.w, self.specs
+        n = len(sp.log)
+        ts = sp.times()
+        a, b = (None, None) if op["kind"] == "all" else ((None, op["b"]) if op["kind"] == "upto" else (op["a"], op["b"]))
+        srt = all(x <= y for x, y in zip(ts, ts[1:]))
+        self.branches.append("extractTimeRange:" + op["kind"] + ("-empty" if not ts else "-sorted" if srt else "-unsorted"))
+        if (a is None or b is None) and not ts:
+            if err != "IndexError":
+                return self._fail("extract_time_range with an open end on an empty storage", {"error": err},
+                                  {"error": "IndexError"}, "etr-empty")
+            return None
+        if err is not None:
+            return self._fail("extract_time_range raised", {"error": err}, {"error": None}, "etr-raised")
+        a = ts[0] if a is None else a
+        b = ts[-1] if b is None else b
+        r = w.stores[-1]
+        if srt:
+            # sorted times: exactly the pairs with a <= t <= b, in order
+            i, j = bisect.bisect_left(ts, a), bisect.bisect_right(ts, b)
+            part = sp.log[i:j]
+            filt = [e for e in sp.log if a <= e[0] <= b]
+            if [id(e[1]) for e in filt] != [id(e[1]) for e in part]:
+                return self._fail("bisect reference differs from the interval filter on sorted times",
+                                  {"slice": [i, j]}, {}, "etr-reference")
+        else:
+            # unsorted times: the bracket found by a binary search is unspecified, but the result
+            # must be a contiguous run of the stored pairs
+            m = len(r.times)
+            i = next((i for i in range(n - m + 1)
+                      if same_vals([float(t) for t in ts[i:i + m]], [float(t) for t in r.times])
+                      and all(same_vals(flat(r.data[x]), sp.log[i + x][1].get()) for x in range(m))
+                      and all(np.shares_memory(r.data[x], st.data[i + x]) for x in range(m))), None)
+            if i is None:
+                i = next((i for i in range(n - m + 1)
+                          if same_vals([float(t) for t in ts[i:i + m]], [float(t) for t in r.times])
+                          and all(same_vals(flat(r.data[x]), sp.log[i + x][1].get()) for x in range(m))), None)
+            if i is None:
+                return self._fail("extract_time_range result is not a contiguous run of the stored pairs",
+                                  {"times": list(r.times)}, {"stored_times": ts}, "etr-not-a-run")
+            part = sp.log[i:i + m]
+        new = SpecStore("truncate_once")
+        for kk, (t, c) in enumerate(part):
+            shared = kk < len(r.data) and i + kk < len(st.data) and np.shares_memory(r.data[kk], st.data[i + kk])
+            new.log.append((t, c if shared else Cell(vals=tuple(c.get()), shape=c.shape, dtype=c.dtype)))
+        S.append(new)
+        return None
+
+    def _apply(self, op, err, sp, st):
+        S = self.specs
+        pre, pre_out = self.pre, self.pre_out
+        src = [(t, tuple(c.get())) for t, c in sp.log]
+        out = op.get("out")
+        tgt = None if out is None else S[out]
+        func = op["func"]
+        if src and tgt is not None and tgt.mode == "readonly" and err != "RuntimeError":
+            return self._fail("copy/apply into a readonly storage did not raise RuntimeError", {"error": err},
+                              {"error": "RuntimeError"}, "readonly-start-accepted", "StorageBase.apply")
+        tmpl = pre["template"]
+        lay = member_layout(tmpl) if is_collection(tmpl) else None
+        # validity: an empty source never touches `out`; otherwise `out.start_writing(transformed)` and the
+        # appends of the transformed fields must be valid
+        if not src:
+            valid = True
+        elif tmpl is None:
+            valid = False
+        else:
+            tf = tmpl[func["i"]] if func["kind"] == "member" and lay is not None and func["i"] < len(lay) else tmpl
+            # the output storage reads with its own dtype or (a storage that `apply` creates, or one without
+            # dtype) with the dtype of the first transformed field: every transformed field must fit into it
+            dts = [np.dtype(st[kk].dtype) for kk in range(len(src))]
+            odt = dts[0] if tgt is None or pre_out["dtype"] is None else pre_out["dtype"]
+            cast_ok = all(np.can_cast(d, odt, casting="safe") for d in dts)
+            if tgt is None:
+                valid = cast_ok
+            else:
+                shape_ok = pre_out["shape"] is None or pre_out["shape"] == tuple(tf.data.shape)
+                valid = pre_out["mode"] in WRITABLE and shape_ok and cast_ok
+        self.branches.append("apply:" + func["kind"] + ("-empty" if not src else "") +
+                             ("-new" if tgt is None else "-out-valid" if valid else "-out-invalid"))
+        if valid and err is not None:
+            return self._fail("copy/apply was refused although the source is readable and the output storage "
+                              "(if any) accepts the transformed fields", {"error": err, "func": func, "out": out},
+                              {"error": None}, "apply-rejected", "StorageBase.apply")
+        newlog = [(t, Cell(vals=apply_vals(func, t, v, lay))) for t, v in src]
+        if err is None:
+            if tgt is None:
+                tgt = SpecStore("truncate_once")
+                S.append(tgt)
+            if src:
+                if tgt.truncates():
+                    tgt.log = []
+                tgt.fresh = False
+                tgt.log = tgt.log + newlog
+        elif src and tgt is not None and pre_out["mode"] in WRITABLE:
+            # an `apply` that raises leaves `out` untouched (`out.start_writing` refused) or, when the session was
+            # opened (truncation as documented), with the transformed fields appended before the one that was refused
+            real = self.w.stores[out]
+            rt = [float(t) for t in real.times]
+            flipped = pre_out["mode"] == "truncate_once" and real.write_mode == "append"
+            base = [] if tgt.truncates() else tgt.log
+            cands = ([] if flipped else [None]) + [base + newlog[:j] for j in range(len(newlog))]
+            for c in cands:
+                if same_vals([float(t) for t, _c in (tgt.log if c is None else c)], rt):
+                    if c is not None:
+                        tgt.log, tgt.fresh = c, False
+                    break
         return None
